@@ -40,8 +40,9 @@ CONSTANTS
   EnvStop,      \* the environment may stop the server
   EarlyReturn,  \* handlers may return before consuming what the caller sent
   AdvClient,    \* number of arbitrary envelopes an adversarial peer may send to the server (C12)
-  AdvServer     \* number of arbitrary envelopes an adversarial peer may send to the client (C13);
+  AdvServer,    \* number of arbitrary envelopes an adversarial peer may send to the client (C13);
                 \* when > 0 there is no real server
+  AdvIds        \* the stream ids the adversarial peer uses
 
 Calls == Unaries \cup Streams
 Workers == 1..NWorkers
@@ -696,7 +697,7 @@ ServerSeesClose ==
 \* An adversarial peer: any envelope shape, for any small id, at any time.
 AdvSendsToServer ==
   /\ advN < AdvClient
-  /\ \E id \in 1..2, k \in {"open", "body", "close", "rst", "req"} : c2s' = Append(c2s, Env(id, k))
+  /\ \E id \in AdvIds, k \in {"open", "body", "close", "rst", "req"} : c2s' = Append(c2s, Env(id, k))
   /\ advN' = advN + 1
   /\ UNCHANGED <<s2c, nextId, idOf, muxLock, reg, respCh, respDone, rErr, mpc, mcur, cReadFailed, upc, ures,
                  spc, sop, nsent, closed, cancelled, sres, rpc, rcur, sctx, rdone, rterm, rChClosed, prot,
@@ -704,12 +705,21 @@ AdvSendsToServer ==
                  hpc, hrecv, hsentN, hres, hsawEOF, waitFor, sReadFailed, stopped, serveRet>>
 AdvSendsToClient ==
   /\ advN < AdvServer
-  /\ \E id \in 1..3, k \in {"hdr", "body", "ok", "err", "rst", "resp", "uerr"} : s2c' = Append(s2c, Env(id, k))
+  /\ \E id \in AdvIds, k \in {"hdr", "body", "ok", "err", "rst", "resp", "uerr"} : s2c' = Append(s2c, Env(id, k))
   /\ advN' = advN + 1
   /\ UNCHANGED <<c2s, nextId, idOf, muxLock, reg, respCh, respDone, rErr, mpc, mcur, cReadFailed, upc, ures,
                  spc, sop, nsent, closed, cancelled, sres, rpc, rcur, sctx, rdone, rterm, rChClosed, prot,
                  gotTrailer, srpc, srcur, srvLock, sreg, sch, hctx, hdoneSig, connCtx, wpc, wcur, wrpc, wrcur,
                  hpc, hrecv, hsentN, hres, hsawEOF, waitFor, sReadFailed, stopped, serveRet>>
+
+\* ... and having said all it wanted, the adversarial peer closes the connection
+AdvCloses ==
+  /\ \/ AdvClient > 0 /\ advN = AdvClient /\ ~sReadFailed /\ sReadFailed' = TRUE /\ UNCHANGED cReadFailed
+     \/ AdvServer > 0 /\ advN = AdvServer /\ ~cReadFailed /\ cReadFailed' = TRUE /\ UNCHANGED sReadFailed
+  /\ UNCHANGED <<c2s, s2c, nextId, idOf, muxLock, reg, respCh, respDone, rErr, mpc, mcur, upc, ures,
+                 spc, sop, nsent, closed, cancelled, sres, rpc, rcur, sctx, rdone, rterm, rChClosed, prot,
+                 gotTrailer, srpc, srcur, srvLock, sreg, sch, hctx, hdoneSig, connCtx, wpc, wcur, wrpc, wrcur,
+                 hpc, hrecv, hsentN, hres, hsawEOF, waitFor, stopped, serveRet, advN>>
 
 -----------------------------------------------------------------------------
 AllCallersDone == /\ \A c \in Unaries : upc[c] = "done"
@@ -732,7 +742,7 @@ Next ==
   \/ WrWrite \/ WrExit
   \/ \E i \in Ids : HChoose(i) \/ HRecv(i) \/ HSend(i) \/ HTrailer(i) \/ HCancel(i) \/ HUnregister(i)
   \/ ClientReadFail \/ Stop \/ PeerClosesAfterServe \/ ServerSeesClose
-  \/ AdvSendsToServer \/ AdvSendsToClient
+  \/ AdvSendsToServer \/ AdvSendsToClient \/ AdvCloses
   \/ Terminated
 
 Spec == Init /\ [][Next]_vars
@@ -752,10 +762,10 @@ NoCancelAfterSuccess == \A c \in Streams : \A i \in DOMAIN sres[c] :
                   sres[c][i] = "canceled" => cancelled[c]
 
 \* C06: the server's reset for a late message never precedes that stream's trailer on the wire
-ResetNotBeforeTrailer == AdvServer = 0 =>
+ResetNotBeforeTrailer == (AdvServer = 0 /\ AdvClient = 0) =>
   \A i \in DOMAIN s2c : s2c[i].k = "rst" =>
      ~\E j \in DOMAIN s2c : j > i /\ s2c[j].id = s2c[i].id /\ s2c[j].k \in {"ok", "err"}
-ResetNotBeforeTrailerPending ==
+ResetNotBeforeTrailerPending == (AdvServer = 0 /\ AdvClient = 0) =>
   \A i \in DOMAIN s2c : s2c[i].k = "rst" => ~(wrpc = "write" /\ wrcur.id = s2c[i].id /\ wrcur.k \in {"ok", "err"})
 
 \* C09: nothing succeeds out of thin air
